@@ -89,6 +89,11 @@ func (*connectHandler) SetTimeout(request *http.Request) (context.Context, conte
 	}
 	// A header that is there but empty is a malformed timeout, not an absent
 	// one: it fails to parse below.
+	if len(request.Header.Values(connectHeaderTimeout)) > 1 {
+		// Several field lines mean the same as one line with the values joined by
+		// commas, which is no timeout in the grammar: don't just take the first.
+		return nil, nil, errorf(CodeInvalidArgument, "parse timeout: more than one %s header", connectHeaderTimeout)
+	}
 	if len(timeout) > 10 {
 		return nil, nil, errorf(CodeInvalidArgument, "parse timeout: %q has >10 digits", timeout)
 	}
